@@ -65,6 +65,8 @@ pub enum KV {
     Seq(Vec<KV>),
     Map(Vec<(KV, KV)>),
     Tup(Vec<KV>),
+    /// a BigDecimal whose exponent does not fit the i32 scale of CqlDecimal: (exponent, unscaled bytes)
+    BigDec(i64, Vec<u8>),
 }
 pub fn wrap(v: KV) -> KV {
     KV::Wrap(Box::new(v))
@@ -81,6 +83,7 @@ impl KV {
             KV::Seq(xs) => l("seq", xs),
             KV::Tup(xs) => l("tup", xs),
             KV::Map(m) => format!("map[{}]", m.iter().map(|(k, v)| format!("{}~{}", k.show(), v.show())).collect::<Vec<_>>().join(",")),
+            KV::BigDec(sc, b) => format!("bigdec[{},{}]", vh::hex_i(*sc as i128), vh::hex_bytes(b)),
         }
     }
 }
@@ -151,6 +154,16 @@ impl<'a> P<'a> {
                     return Err("w".into());
                 }
                 wrap(v.pop().unwrap())
+            }
+            "bigdec" => {
+                let v = self.items(|p| Ok(p.tok().to_string()))?;
+                if v.len() != 2 {
+                    return Err("bigdec".into());
+                }
+                let neg = v[0].starts_with('-');
+                let mag = i128::from_str_radix(v[0].trim_start_matches('-'), 16).map_err(|e| e.to_string())?;
+                let sc = i64::try_from(if neg { -mag } else { mag }).map_err(|e| e.to_string())?;
+                KV::BigDec(sc, unhex(&v[1])?)
             }
             "seq" => KV::Seq(self.items(|p| p.kv())?),
             "tup" => KV::Tup(self.items(|p| p.kv())?),
@@ -237,19 +250,51 @@ leaf!(num_bigint_03::BigInt, "BigInt03",
 leaf!(num_bigint_04::BigInt, "BigInt04",
     |v| varint_bytes(v).filter(|b| !b.is_empty()).map(num_bigint_04::BigInt::from_signed_bytes_be),
     |me| CqlValue::Varint(CqlVarint::from_signed_bytes_be(me.to_signed_bytes_be())));
-leaf!(bigdecimal::BigDecimal, "BigDecimal",
-    |v| if let CqlValue::Decimal(d) = v {
-        let (b, sc) = d.as_signed_be_bytes_slice_and_exponent();
-        if b.is_empty() { None } else {
-            Some(bigdecimal::BigDecimal::from((bigdecimal::num_bigint::BigInt::from_signed_bytes_be(b), sc as i64)))
+impl HasDesc for bigdecimal::BigDecimal {
+    fn desc() -> Desc {
+        Desc::leaf("BigDecimal")
+    }
+}
+impl Build for bigdecimal::BigDecimal {
+    fn build(v: &KV) -> Option<Self> {
+        match v {
+            KV::Leaf(CqlValue::Decimal(d)) => {
+                let (b, sc) = d.as_signed_be_bytes_slice_and_exponent();
+                if b.is_empty() {
+                    None
+                } else {
+                    Some(bigdecimal::BigDecimal::from((bigdecimal::num_bigint::BigInt::from_signed_bytes_be(b), sc as i64)))
+                }
+            }
+            KV::BigDec(sc, b) if !b.is_empty() => {
+                Some(bigdecimal::BigDecimal::from((bigdecimal::num_bigint::BigInt::from_signed_bytes_be(b), *sc)))
+            }
+            _ => None,
+        }
+    }
+    fn show(&self) -> KV {
+        let (i, sc) = self.as_bigint_and_exponent();
+        match i32::try_from(sc) {
+            Ok(sc32) => KV::Leaf(CqlValue::Decimal(CqlDecimal::from_signed_be_bytes_and_exponent(i.to_signed_bytes_be(), sc32))),
+            Err(_) => KV::BigDec(sc, i.to_signed_bytes_be()),
+        }
+    }
+}
+leaf!(chrono::NaiveDate, "ChronoDate", |v| if let CqlValue::Date(d) = v { (*d).try_into().ok() } else { None }, |me| CqlValue::Date(CqlDate::from(*me)));
+// nanoseconds since midnight; a leap second (up to 86400999999999) is a NaiveTime but not a CqlTime
+leaf!(chrono::NaiveTime, "ChronoTime",
+    |v| if let CqlValue::Time(d) = v {
+        let z = d.0;
+        if z < 0 { None } else if z < 86_400_000_000_000 {
+            chrono::NaiveTime::from_num_seconds_from_midnight_opt((z / 1_000_000_000) as u32, (z % 1_000_000_000) as u32)
+        } else {
+            chrono::NaiveTime::from_num_seconds_from_midnight_opt(86399, u32::try_from(z - 86_399_000_000_000).ok()?)
         }
     } else { None },
     |me| {
-        let (i, sc) = me.as_bigint_and_exponent();
-        CqlValue::Decimal(CqlDecimal::from_signed_be_bytes_and_exponent(i.to_signed_bytes_be(), sc as i32))
+        use chrono::Timelike;
+        CqlValue::Time(CqlTime(me.num_seconds_from_midnight() as i64 * 1_000_000_000 + me.nanosecond() as i64))
     });
-leaf!(chrono::NaiveDate, "ChronoDate", |v| if let CqlValue::Date(d) = v { (*d).try_into().ok() } else { None }, |me| CqlValue::Date(CqlDate::from(*me)));
-leaf!(chrono::NaiveTime, "ChronoTime", |v| if let CqlValue::Time(d) = v { (*d).try_into().ok() } else { None }, |me| CqlValue::Time(CqlTime::try_from(*me).unwrap()));
 leaf!(chrono::DateTime<chrono::Utc>, "ChronoDateTime", |v| if let CqlValue::Timestamp(d) = v { (*d).try_into().ok() } else { None }, |me| CqlValue::Timestamp(CqlTimestamp::from(*me)));
 leaf!(time::Date, "TimeDate", |v| if let CqlValue::Date(d) = v { (*d).try_into().ok() } else { None }, |me| CqlValue::Date(CqlDate::from(*me)));
 leaf!(time::Time, "TimeTime", |v| if let CqlValue::Time(d) = v { (*d).try_into().ok() } else { None }, |me| CqlValue::Time(CqlTime::from(*me)));
@@ -649,6 +694,17 @@ tuple_carrier!(A 0);
 tuple_carrier!(A 0, B 1);
 tuple_carrier!(A 0, B 1, C 2);
 tuple_carrier!(A 0, B 1, C 2, D 3);
+tuple_carrier!(A 0, B 1, C 2, D 3, E 4);
+tuple_carrier!(A 0, B 1, C 2, D 3, E 4, F 5);
+tuple_carrier!(A 0, B 1, C 2, D 3, E 4, F 5, G 6);
+tuple_carrier!(A 0, B 1, C 2, D 3, E 4, F 5, G 6, H 7);
+tuple_carrier!(A 0, B 1, C 2, D 3, E 4, F 5, G 6, H 7, I 8);
+tuple_carrier!(A 0, B 1, C 2, D 3, E 4, F 5, G 6, H 7, I 8, J 9);
+tuple_carrier!(A 0, B 1, C 2, D 3, E 4, F 5, G 6, H 7, I 8, J 9, K 10);
+tuple_carrier!(A 0, B 1, C 2, D 3, E 4, F 5, G 6, H 7, I 8, J 9, K 10, L 11);
+tuple_carrier!(A 0, B 1, C 2, D 3, E 4, F 5, G 6, H 7, I 8, J 9, K 10, L 11, M 12);
+tuple_carrier!(A 0, B 1, C 2, D 3, E 4, F 5, G 6, H 7, I 8, J 9, K 10, L 11, M 12, N 13);
+tuple_carrier!(A 0, B 1, C 2, D 3, E 4, F 5, G 6, H 7, I 8, J 9, K 10, L 11, M 12, N 13, O 14);
 tuple_carrier!(A 0, B 1, C 2, D 3, E 4, F 5, G 6, H 7, I 8, J 9, K 10, L 11, M 12, N 13, O 14, Q 15);
 
 // deserialization-only iterators
@@ -841,7 +897,13 @@ pub fn registries() -> (Vec<SerEntry>, Vec<DeEntry>) {
     both_wrap!(s, d; HashSet; i32, i64, String, bool, Vec<u8>, uuid::Uuid, IpAddr, i8, i16);
     both_list!(s, d; (i32,), (String,), (i64,), (bool,), (Vec<u8>,), (uuid::Uuid,), (f64,), (CqlVarint,), (CqlDuration,), (CqlValue,),
         (i32, String), (i32, String, Vec<u8>), (Option<i32>, Option<String>), (i32, i32, i32), (i32, i32, i32, i64), I16Tuple,
-        (Vec<i32>, Option<String>), (CqlValue, i32), ((i32, String), i64));
+        (Vec<i32>, Option<String>), (CqlValue, i32), ((i32, String), i64),
+        (i32, i32, i32, i32, i32), (i32, String, i64, Vec<u8>, bool, f64), (i32, i32, i32, i32, i32, i32, i32),
+        (i32, String, i64, Vec<u8>, bool, f64, uuid::Uuid, Option<i32>), (i32, i32, i32, i32, i32, i32, i32, i32, i32),
+        (i32, i32, i32, i32, i32, i32, i32, i32, i32, i32), (i32, i32, i32, i32, i32, i32, i32, i32, i32, i32, i32),
+        (i32, i32, i32, i32, i32, i32, i32, i32, i32, i32, i32, i32), (i32, i32, i32, i32, i32, i32, i32, i32, i32, i32, i32, i32, i32),
+        (i32, i32, i32, i32, i32, i32, i32, i32, i32, i32, i32, i32, i32, i32),
+        (i32, String, i32, String, i32, String, i32, String, i32, String, i32, String, i32, String, i32));
     // maps over 5 x 5 leaves
     macro_rules! maps {
         ($k:ty; $($v:ty),*) => { $( s.push(ser_entry::<BTreeMap<$k, $v>>()); d.push(de_entry::<BTreeMap<$k, $v>>());
@@ -911,8 +973,14 @@ where
     let raw = RawRowIterator::new(nrows, specs, FrameSlice::new(data));
     match TypedRowIterator::<R>::new(raw) {
         Err(e) => format!("err:{}", row_tck_leaf(&e)),
-        // the rows are decoded (results dropped): no panic may come out of a checked iterator
-        Ok(it) => format!("ok:{:x}", it.count()),
+        // every item of a checked iterator is taken (decoded or a decoding error): no panic may come out
+        Ok(it) => {
+            let (mut ok, mut bad) = (0usize, 0usize);
+            for r in it {
+                if r.is_ok() { ok += 1 } else { bad += 1 }
+            }
+            format!("ok:{:x}:{:x}", ok, bad)
+        }
     }
 }
 fn row_entry<R: HasDesc + for<'f, 'm> DeserializeRow<'f, 'm>>() -> RowEntry {
@@ -942,5 +1010,8 @@ pub fn row_registry() -> Vec<RowEntry> {
     v.push(row_entry::<(Option<i32>, Vec<String>, CqlValue)>());
     v.push(row_entry::<(String, i64, bool, f64)>());
     v.push(row_entry::<I16Tuple>());
+    v.push(row_entry::<(i32, String, i64, Vec<u8>, bool)>());
+    v.push(row_entry::<(i32, String, i64, Vec<u8>, bool, f64, uuid::Uuid, Option<i32>)>());
+    v.push(row_entry::<(i32, i32, i32, i32, i32, i32, i32, i32, i32, i32, i32, i32)>());
     v
 }
